@@ -83,10 +83,95 @@ def cases(rng, tier):
             m = n + 1
         out.append(_case(rng, routine, n, m, rng.random() < 0.55, rng.choice(SPECS), rng.choice(STARTS)))
     KC.add_magnitudes(rng, out)
+    # large spaces (implementation-level only): n >> numiter, matrix-free Householder-rotated diagonal map, start vector in a
+    # kdim-dimensional invariant subspace: the breakdown test (100 n eps, n the vector length) must recognise the exhausted space
+    for n, m, kdim, scale in {'quick': ((10000, 4, 2, 1e3), (4000, 5, 3, 10.0), (300, 6, 2, 1.0)),
+                              'thorough': ((10000, 4, 2, 1e3), (4000, 5, 3, 10.0), (300, 6, 2, 1.0), (20000, 3, 1, 1e3), (1000, 8, 4, 10.0)),
+                              'search': ((10000, 4, 2, 1e3),)}[tier]:
+        for routine in ('lanczos', 'arnoldi'):
+            out.append({'routine': routine, 'big': True, 'n': n, 'm': m, 'kdim': kdim, 'scale': scale, 'seed': rng.getrandbits(30),
+                        'spectrum': 'big', 'start': 'invariant', 'real_A': False})
+    # start vectors whose norm is one, or within 1e-12 .. 1e-5 of one (implementation-level only: binary64 entries)
+    for routine in ('lanczos', 'arnoldi'):
+        for dn in (0.0, 4e-6, -3e-7, 1e-9, 2e-12):
+            c = _case(rng, routine, 6, 4, True, 'generic', 'generic')
+            v = KC.j2c(c['v'])
+            v = v / np.linalg.norm(v) * (1.0 + dn)
+            c['v'] = KC.c2j(v); c['real_v'] = False; c['proponly'] = True; c['start'] = 'norm=1%+g' % dn
+            out.append(c)
     return out
 
 
+def _impl_big(case):
+    import pytenet.krylov as kr
+    rs = np.random.default_rng(case['seed'])
+    n, m, kd, scale = case['n'], case['m'], case['kdim'], case['scale']
+    u = rs.standard_normal(n) + 1j * rs.standard_normal(n)
+    u /= np.linalg.norm(u)
+    d = scale * rs.uniform(0.5, 1.5, n) * rs.choice([-1, 1], n)
+    Q = lambda x: x - 2 * u * np.vdot(u, x)          # Householder reflection: unitary and Hermitian
+    Afunc = lambda x: Q(d * Q(x))
+    e = np.zeros(n, dtype=complex)
+    e[:kd] = rs.standard_normal(kd) + 1j * rs.standard_normal(kd)
+    v = Q(e)
+    try:
+        with KC.Recorder() as rec:
+            out = (kr.lanczos_iteration if case['routine'] == 'lanczos' else kr.arnoldi_iteration)(Afunc, v, m)
+    except Exception as ex:
+        return {'error': type(ex).__name__}
+    if case['routine'] == 'lanczos':
+        alpha, beta, V = out
+        k = V.shape[1]
+        sizes_ok = V.shape[0] == n and alpha.shape == (k,) and beta.shape == (max(k - 1, 0),)
+        T = np.diag(np.asarray(alpha, dtype=complex)) + np.diag(np.asarray(beta, dtype=complex), 1) + np.diag(np.asarray(beta, dtype=complex), -1) if sizes_ok else None
+        pos = bool(np.all(np.asarray(beta)[:kd - 1] > 0))
+    else:
+        H, V = out
+        k = V.shape[1]
+        sizes_ok = V.shape[0] == n and H.shape == (k, k)
+        T = np.asarray(H, dtype=complex) if sizes_ok else None
+        pos = True
+    res = {'big': True, 'k': int(k), 'sizes_ok': bool(sizes_ok), 'warn': any(c == 'RuntimeWarning' for c, _ in rec.warns), 'pos': pos,
+           'norms': rec.norms}
+    if sizes_ok:
+        L = min(k, kd)
+        VL = V[:, :L]
+        AV = np.stack([Afunc(VL[:, i]) for i in range(L)], axis=1)
+        res['orth'] = float(np.abs(VL.conj().T @ VL - np.eye(L)).max())
+        res['proj'] = float(np.abs(VL.conj().T @ AV - T[:L, :L]).max() / scale)
+        res['first'] = float(abs(abs(np.vdot(V[:, 0], v)) - np.linalg.norm(v)) / np.linalg.norm(v))
+    return res
+
+
+def _prop_big(case, r):
+    if 'error' in r:
+        return ['routine raised %s' % r['error']]
+    m, kd = case['m'], case['kdim']
+    msgs = []
+    if not r['sizes_ok'] or not (1 <= r['k'] <= m):
+        return ['inconsistent output sizes (k=%d)' % r['k']]
+    if r['k'] < min(m, kd):
+        msgs.append('iteration stopped at %d although the Krylov space has dimension %d' % (r['k'], kd))
+    # the exhausted space must be recognised whenever the residual norm recorded at the exhaustion point is below the documented
+    # threshold 100 n eps (n = length of the vectors); above it the absolute test legitimately lets rounding noise pass
+    if r['k'] > kd and len(r['norms']) > kd and r['norms'][kd] < KC.thr_of(case['n']):
+        msgs.append('%d vectors returned although the Krylov space has dimension %d (n=%d, numiter=%d): exhaustion not recognised' % (r['k'], kd, case['n'], m))
+    if r['warn'] != (r['k'] < m):
+        msgs.append('shortened output without breakdown warning or vice versa (k=%d, numiter=%d, warn=%s)' % (r['k'], m, r['warn']))
+    if r['orth'] > 1e-8:
+        msgs.append('vectors not orthonormal up to the exhaustion point (%.3g)' % r['orth'])
+    if r['proj'] > 1e-8:
+        msgs.append('V^H A V differs from the returned matrix up to the exhaustion point (%.3g)' % r['proj'])
+    if r['first'] > 1e-9:
+        msgs.append('first vector is not the normalised start vector')
+    if not r['pos']:
+        msgs.append('off-diagonal coefficient not positive')
+    return msgs
+
+
 def impl(case):
+    if case.get('big'):
+        return _impl_big(case)
     import pytenet.krylov as kr
     A, v = KC.make_arrays(case)
     f = kr.lanczos_iteration if case['routine'] == 'lanczos' else kr.arnoldi_iteration
@@ -105,6 +190,8 @@ def impl(case):
 
 
 def prop(case, r):
+    if case.get('big'):
+        return _prop_big(case, r)
     A, v = KC.make_arrays(case)
     if not np.any(v != 0):
         return [] if r.get('error') == 'AssertionError' else ['zero start vector accepted']
@@ -125,13 +212,15 @@ def _full(r):
 
 
 def coq(case, r):
+    if case.get('big'):
+        return None
     n, m = case['n'], case['m']
     v = KC.j2c(case['v'])
     if 'error' in r:
         fn = 'lanczos' if case['routine'] == 'lanczos' else 'arnoldi'
         return ('match %s QcF (matvec %s) (norm_tab QcF tol9 [qd 0 0%%N]) (small_thr QcF %s) %s %s with None => true | Some _ => false end'
                 % (fn, KC.cmat(KC.j2c(case['A'])), KC.qd(KC.thr_of(n)), KC.cvec(v), E.nat(m)))
-    if KC.ambiguous(r['norms'], n, KC.case_scale(case)) or case.get('mag'):
+    if KC.ambiguous(r['norms'], n, KC.case_scale(case)) or case.get('mag') or case.get('proponly'):
         return None      # magnitude regimes: implementation-level property only (the tolerances of the Coq-side oracle lookup are absolute)
     head = KC.lanczos_args(case, r, r['norms'])
     if case['routine'] == 'lanczos':
@@ -150,6 +239,8 @@ def coq_diag(case, r):
 def klass(case, r):
     if 'error' in r:
         return '%s/error:%s' % (case['routine'], r['error'])
+    if case.get('big'):
+        return '%s/large-space/n%d/%s' % (case['routine'], case['n'], 'breakdown' if r['warn'] else 'complete')
     amb = '/ambiguous' if KC.ambiguous(r['norms'], case['n'], KC.case_scale(case)) else ''
     spec = case['spectrum'] if case['spectrum'] in ('generic', 'degenerate') else 'trivialA'
     start = 'invariant-start' if case['start'] in ('invariant', 'eigvec') else 'generic-start'
@@ -158,4 +249,6 @@ def klass(case, r):
 
 
 def nontrivial(case, r):
+    if case.get('big'):
+        return 'error' not in r and r['k'] >= 2
     return 'error' not in r and len(r['V']) >= 2
